@@ -7,7 +7,7 @@ import fuel_table
 
 BIG = 2**40
 EXTREMES = [2**31, 2**32, 2**62, 2**63 - 1, 2**63, 2**63 + 1, 2**64 - 2, 2**64 - 1]
-QUICK_PARAMS = [(0, 0, 0), (1, 1, 0), (3, 2, 1), (2, 3, 2), (5, 2, 3), (4, 4, 1), (6, 5, 2), (2, 0, 4), (0, 3, 1), (6, 1, 0), (3, 3, 3), (1, 5, 2)]
+QUICK_PARAMS = [(0, 0, 0), (1, 1, 0), (3, 2, 1), (2, 3, 2), (5, 2, 3), (4, 4, 1), (6, 5, 2), (2, 0, 4), (0, 3, 1), (6, 1, 0), (3, 3, 3), (1, 5, 2), (2, 2, 2), (1, 3, 4)]
 FAMILY = ["empty", "with only", "with+autoescape only", "raw text", "arithmetic", "for loop", "nested loops", "if/elif/else",
           "macro calls", "recursive macro", "call block", "include in loop", "include chain", "extends", "3-level super()",
           "import/from import", "set block + filter block", "break/continue/cycle", "recursive loop", "filters", "autoescape/with",
@@ -19,7 +19,8 @@ FAMILY = ["empty", "with only", "with+autoescape only", "raw text", "arithmetic"
           "debug() / printed loop, namespace, self, macro, State (output must not show the budget)", "block re-entering itself via self.x()",
           "parent definition re-enters the block via self.x() under super() (depth m%3+1)", "blocks a <-> b through self under super()", "re-entry under super() with inner work, includes, value-position super()",
           "fails without fuel: macro recursion beyond the recursion limit", "fails without fuel: self-including template beyond the recursion limit",
-          "fails without fuel: with-nesting beyond the recursion limit", "fails without fuel: error kind k%7 behind m%4 levels of macro/include/block", "fails without fuel: strict undefined"]
+          "fails without fuel: with-nesting beyond the recursion limit", "fails without fuel: error kind k%7 behind m%4 levels of macro/include/block", "fails without fuel: strict undefined",
+          "fails without fuel: engine size limit k%10 (range cap, string repetition, slice fill, format width, indent)", "nothing to evaluate: text only / comment-split / raw only"]
 NPROC = 12
 
 
